@@ -13,6 +13,8 @@ def run(ctx):
         base.append(dict(id=r["id"], entry=r["entry"], kind=r["kind"], frame=r["frame"]))
         if r["entry"] == "Ethernet":       # a jumbo-sized variant: the same header in front of a 9000-byte frame
             base.append(dict(id=r["id"] + "-jumbo", entry="Ethernet", kind="Ethernet-jumbo", frame=r["frame"] + [i % 251 for i in range(9000 - len(r["frame"]))]))
+            # and one longer than any 16-bit length field can express
+            base.append(dict(id=r["id"] + "-overlong", entry="Ethernet", kind="Ethernet-overlong", frame=r["frame"] + [i % 251 for i in range(70000 - len(r["frame"]))]))
     if not q:
         # more base frames: the well-formed headers of the C09 generator families (every demux path, IPv6 chain order, IGMP count)
         for fam, stride in (("ETH", 1), ("L4", 1), ("IGMP", 1), ("IP6", 7), ("IP4", 997), ("TCP", 37)):
